@@ -141,17 +141,6 @@ Definition merge_mismatch (m : mcase) : bool :=
         list_eqb Z.eqb (mc_tnames m) (m_names t) && names_match (mc_tmap m) (m_namesmap t) &&
         list_eqb (list_eqb Z.eqb) (mc_levels m) (bfs_values t)).
 
-(* observed tree: is it one for which the level layout must nest?  ids unique over the whole tree,
-   non-zero, self >= 0, exact conservation without overflow *)
-Definition tree_regular (ns : list (N * list tnode)) : bool :=
-  let out := rows_of ns in
-  ids_distinct (map r_id out) &&
-  forallb (fun o => negb (N.eqb (r_id o) 0) && Z.leb 0 (r_self o) &&
-                    Z.eqb (r_total o) (r_self o + rchild_tot out (r_id o)) &&
-                    (* reachable from the root: the parent is 0 or a node *)
-                    (N.eqb (r_parent o) 0 || existsb (fun q => N.eqb (r_id q) (r_parent o)) out)) out &&
-  Z.ltb (rchild_tot out 0) two63.
-
 (* number of nodes below [id], by depth-first recursion (an algorithm unrelated to the BFS loop) *)
 Fixpoint reach (fuel : nat) (ns : list (N * list tnode)) (id : N) : nat :=
   match fuel with
